@@ -189,7 +189,7 @@ def iso_cases(defs, cases):
     return n
 
 
-def molo_cases(res, cases):
+def molo_cases(res, cases, beh=None):
     """last clause of C07: molodensky against the Helmert path it approximates (spec/MC_C07_molo.tla)"""
     r = vlib.tlc_must_pass(vlib.tlc("MC_C07_molo", "MC_C07_molo", workers=2, timeout=600))
     vlib.require_coverage(r, ["PickCfg", "PickPt"])
@@ -203,6 +203,20 @@ def molo_cases(res, cases):
         cases.append({"id": len(cases), "k": "rel", "tag": "molodensky-" + x["form"], "a": {"def": x["a"], "dir": "F"}, "b": {"def": x["b"], "dir": "F"},
                       "data": data, "cmp": {"modes": ["lin", "lin", "lin", "bits"], "tol": x["class_mm"] / 1000.0, "ulps": 0}})
         n += len(data)
+        # every spelling of the ellipsoid pair, and the operator as a macro whose caller gives the ellipsoids, is the same
+        # operator as the canonical spelling: bit for bit
+        if beh is not None and x["dir"] == "F":
+            canon = x["a"].split(" | ")[0]
+            others = sorted(t for t in x["spellings"] if t != canon)
+            calls = [{"do": "register", "name": "m:molo", "def": x["macro"]["body"]}, {"do": "op", "def": canon, "as": "h0", "ok": True}]
+            hs = []
+            for j, t in enumerate(others + sorted(x["macro"]["calls"])):
+                calls.append({"do": "op", "def": t, "as": "h%d" % (j + 1), "ok": True})
+                hs.append("h%d" % (j + 1))
+            for h in hs:
+                for dr in ("F", "I"):
+                    calls.append({"do": "same", "a": [["h0", dr]], "b": [[h, dr]], "data": data[::7]})
+            beh.append({"id": len(beh), "ctx": "minimal", "kind": "molodensky-spellings", "calls": calls})
     res.assumption_evaluations += n
     res.extra["molodensky_route_obligations"] = n
     return len(recs)
@@ -244,7 +258,7 @@ def run(tier, seed):
     if niso == 0:
         raise vlib.ToolError("vacuous: no exact-mode core with rotations")
     nontrivial += niso
-    nontrivial += molo_cases(res, cases)
+    nontrivial += molo_cases(res, cases, beh)
     summary, mism = scriptlib.replay_scripts(PROP, beh)
     rsum, rfails = run_rel(PROP, cases)
     res.behaviours_replayed = (summary["behaviours"] - len(mism)) + (rsum["cases"] - rsum["mismatching"])
